@@ -52,6 +52,37 @@ def embed(block: sp.Matrix, positions: Sequence[int], dim: int) -> sp.Matrix:
     return out
 
 
+class GuardViolation(Exception):
+    """A skip guard around an emitted instruction that is not symmetric around the excluded value."""
+
+    def __init__(self, message: str, node: ast.AST):
+        super().__init__(message)
+        self.node = node
+
+
+def classify_skip_guard(test: ast.AST) -> str:
+    """'symmetric'  — not np.isclose(x, 0) / x != 0 / abs(x) > eps   (skips only the neutral value)
+       'one-sided'  — x > eps / x >= eps / x < -eps ...               (also skips the other sign)
+       'unknown'"""
+    t = test
+    pol = True
+    while isinstance(t, ast.UnaryOp) and isinstance(t.op, ast.Not):
+        pol = not pol
+        t = t.operand
+    if isinstance(t, ast.Call) and (dotted(t.func) or "").split(".")[-1] in ("isclose", "allclose") and not pol:
+        return "symmetric"
+    if isinstance(t, ast.Compare) and len(t.ops) == 1:
+        l, o, r = t.left, t.ops[0], t.comparators[0]
+        has_abs = any(isinstance(x, ast.Call) and (dotted(x.func) or "").split(".")[-1] in ("abs", "fabs", "absolute") for x in (l, r))
+        if isinstance(o, (ast.NotEq,)) and pol:
+            return "symmetric"
+        if isinstance(o, (ast.Eq,)) and not pol:
+            return "symmetric"
+        if isinstance(o, (ast.Gt, ast.GtE, ast.Lt, ast.LtE)):
+            return "symmetric" if has_abs else "one-sided"
+    return "unknown"
+
+
 class InstructionListBuilder:
     """Translates a function that builds `instructions` by `instructions.append(pq.X(args).on_modes(m...))` into the
     product of the embedded passive blocks (later instructions multiply from the left)."""
@@ -129,10 +160,15 @@ class InstructionListBuilder:
                 continue
             if isinstance(s, ast.If):
                 t = norm(s.test)
-                if "isclose" in t and not s.orelse:
+                kind = classify_skip_guard(s.test)
+                if kind == "symmetric" and not s.orelse:
                     self.assumptions.append(f"{self.fn.name}: the branch `{t}` is taken (generic parameter value); skipping it is the identity at the excluded value")
                     self.run_block(s.body, list_name)
                     continue
+                if kind == "one-sided" and not s.orelse:
+                    raise GuardViolation(
+                        f"the instructions of {self.fn.name} are emitted only when `{t}` holds: the guard is one-sided, so parameter values "
+                        f"of the other sign (e.g. negative angles) are silently dropped although they are not the identity", s)
                 raise Untranslatable(f"E6: branch `{t}` in {self.fn.qualname}")
             if isinstance(s, ast.Return):
                 return None
